@@ -346,6 +346,7 @@ def cause(e, mh, carried):
     if "is not an instance of 'Inventory'" in msg:
         return "xml-source-into-chk-target"
     labels = set()
+    kinds = {}
     for r in carried:
         spec = mh.revs[r]
         tree = mh.tree(spec["parents"][0]) if spec["parents"] else {}
@@ -357,12 +358,19 @@ def cause(e, mh, carried):
                     if any(x != q and histsim.inside(q, x) for x in tree):
                         labels.add("dir-rename")
             tree = histsim.apply_actions(tree, [a])
+        # a kind change can also sit in the delta against a bundle base / merge parent
+        for q in [r] + [x for x in spec["parents"] if x in mh.revs]:
+            for v_ in mh.tree(q).values():
+                if kinds.setdefault(v_[0], v_[1]) != v_[1]:
+                    labels.add("kind-change")
         vals = list((spec.get("props") or {}).values()) + (["\n".join(spec["authors"])] if spec.get("authors") else [])
         if any("\n" in v for v in vals):
             labels.add("multiline-property")
     return "+".join(sorted(labels)) or "-"
 
 
+_LIFTED = []
+_GUARD_CLASS = {"old_kind_change": "kind-change", "old_multiline_property": "multiline-property", "old_dir_rename": "dir-rename"}
 CLASS_CAUSES = ("negative-half-hour-timezone", "null-base", "xml-source-into-chk-target", "kind-change", "multiline-property", "dir-rename")
 
 
@@ -378,6 +386,11 @@ def class_sig(oracle, family, e, mh, carried):
         for k in CLASS_CAUSES[3:]:
             if k in c.split("+"):
                 return [oracle, family, k]
+        # the feature may sit in a revision that is only the basis of a delta (bundle base, merge
+        # parent on another line): fall back on the one old-format guard this run lifted
+        lifted_old = [g for g in _LIFTED if g in _GUARD_CLASS]
+        if len(lifted_old) == 1:
+            return [oracle, family, _GUARD_CLASS[lifted_old[0]]]
     return [oracle, family, "-", type(e).__name__]
 
 
@@ -442,6 +455,7 @@ def execute(sim, plan):
     os.chdir(os.environ["VERIF_SCRATCH"])  # bundle_data drops ",,bogus-inv" into the cwd
     specs = plan["specs"]
     mh = histsim.replay(specs)
+    _LIFTED[:] = plan.get("lifted") or []
     src_fmt, tgt_fmt = plan["fmts"]
     bfmt = plan["bundle_format"]
     strict = RICH[src_fmt] == RICH[tgt_fmt]
@@ -694,7 +708,16 @@ def _directive_part(sim, plan, mh, sb, src_fmt, tgt_fmt, strict):
     verified = d2.get_merge_request(trepo)[2]
     want_v = "verified" if md["patch"] else "inapplicable"
     if verified != want_v:
-        sim.fail("directive_verify", ["directive_verify"] + sigbase + [verified], f"untouched directive: patch verification says {verified!r}, expected {want_v!r}")
+        # reported class: a path whose entry is replaced by one with a new file id between base
+        # and target (removed + added at the same path) is diffed in iter_changes order, which
+        # differs between CHK and XML-inventory repositories
+        sig = ["directive_verify"] + sigbase + [verified]
+        bid = d2.base_revision_id.decode() if d2.base_revision_id else None
+        if verified == "failed" and bid in mh.revs and src_fmt != tgt_fmt:
+            bt, tt = mh.tree(bid), mh.tree(target)
+            if any(p_ in tt and p_ != "" and bt[p_][0] != tt[p_][0] for p_ in bt):
+                sig = ["directive_verify", "path-replaced-by-new-id"]
+        sim.fail("directive_verify", sig, f"untouched directive ({src_fmt}->{tgt_fmt}, base {bid}, target {target}): patch verification says {verified!r}, expected {want_v!r}")
     sim.probe("directive_install")
     sim.notes["evaluations"] = sim.notes.get("evaluations", 0) + 1
     # corruption of the patch / bundle sections
